@@ -7,7 +7,7 @@
    tree (recorded finding), variants/C11_q2{2,3}_known.v prove exactly how the code deviates. *)
 From Coq Require Import Reals List.
 Import ListNotations.
-From MPC Require Import Num Species RInst StatMech RVec RSumIdx BracketTables ChapmanEnskog GenTransport Transport C11_base C11_proofs C11_hs.
+From MPC Require Import Num Species RInst StatMech RVec RSumIdx BracketTables ChapmanEnskog GenTransport Transport C11_base C11_proofs C11_hs C11_final.
 Open Scope R_scope.
 
 Section Statements.
@@ -78,3 +78,25 @@ Theorem C11_hard_sphere_lambda_ratio_3 :
   = 60989 / 59512 /\ Rabs (60989 / 59512 - 1.02482) < 5 / 1000000.
 Proof. exact hard_sphere_lambda_ratio_3. Qed.
 Print Assumptions C11_hard_sphere_lambda_ratio_3.
+
+(* the right-hand sides and final formulae AS CODED in viscosity / DTi / Dij / electrical_conductivity (gen_*: regenerated from
+   functions_transport.py on every run, index form) are those of the model Transport.v, about which the C05 / C12 / C14 theorems
+   (conservation identities, quadratic forms, invariances) are stated *)
+Theorem C11_final_formulae_as_coded : forall (U : Units R),
+  (forall T masses nd i, gen_visc_rhs0 RNum U T masses nd i = visc_rhs0 RNum U T masses nd i) /\
+  (forall T nd nb b0, gen_visc_value RNum U T nd nb b0 = visc_value RNum U T nd nb b0) /\
+  (forall nd i, gen_DTi_rhs1 RNum nd i = DTi_rhs1 RNum nd i) /\
+  (forall T masses nd a0 i, gen_DTi_value RNum U T masses nd a0 i = DTi_value RNum U T masses nd i (a0 i)) /\
+  (forall i j h, gen_Dij_rhs RNum i j h = Dij_rhs RNum i j h) /\
+  (forall rho ntot T masses nd i j c0i,
+     gen_Dij_value RNum U rho ntot T masses nd i j c0i = Dij_value RNum U rho ntot T masses nd i j c0i) /\
+  (forall rho ntot T masses nd charges nb De, rho <> 0 -> k_b U <> 0 -> T <> 0 ->
+     gen_sigma_value RNum U rho ntot T masses nd charges nb De = sigma_value RNum U rho ntot T masses nd charges nb De).
+Proof.
+  intros U.
+  split; [intros; apply gen_visc_rhs0_model|]. split; [intros; apply gen_visc_value_model|].
+  split; [intros; apply gen_DTi_rhs1_model|]. split; [intros; apply gen_DTi_value_model|].
+  split; [intros; apply gen_Dij_rhs_model|]. split; [intros; apply gen_Dij_value_model|].
+  intros; apply gen_sigma_value_model; assumption.
+Qed.
+Print Assumptions C11_final_formulae_as_coded.
